@@ -24,6 +24,7 @@ type GenOpts struct {
 	Iface            bool // outputs declared as interface types
 	MaxDeps          int
 	DisposableBias   bool // prefer D types
+	ChainBias        bool // prefer depending on recently generated services (deeper chains)
 }
 
 func FullOpts() GenOpts {
@@ -120,6 +121,9 @@ func (g *genState) genDeps(t *rapid.T, life int) (deps []DepSpec, needIn bool) {
 			}
 			if len(cands) == 0 {
 				continue
+			}
+			if g.o.ChainBias && len(cands) > 3 && rapid.IntRange(0, 9).Draw(t, "chain") < 6 {
+				cands = cands[len(cands)-3:] // prefer recently generated services: longer dependency chains
 			}
 			a := rapid.SampledFrom(cands).Draw(t, "dep")
 			d := DepSpec{T: a.id.T, Key: a.id.Key}
